@@ -150,6 +150,8 @@ pub struct ExecOut {
     pub steps: Vec<Step>,
     /// result of the implicit final finish (if `final_finish` and writer not yet finished)
     pub final_res: Option<Res>,
+    /// sink position right after the last successful finish()
+    pub end_pos: Option<u64>,
 }
 
 /// write `data` with write_all semantics, piece by piece, counting what the writer accepted
@@ -180,8 +182,10 @@ pub fn run_program(ops: &[Op], env: &ExecEnv) -> ExecOut {
     let mut w: Option<ZipWriter<SimDisk>> = None;
     let mut started = false;
     let mut finished = false;
+    let mut end_pos: Option<u64> = None;
     for op in ops {
-        if !started && !matches!(op, Op::Append) {
+        if !started {
+            // the first writer lifetime always exists (an Append as first op reopens an empty archive)
             w = Some(ZipWriter::new(mk_sink().at(env.start_pos)));
             started = true;
         }
@@ -317,6 +321,7 @@ pub fn run_program(ops: &[Op], env: &ExecEnv) -> ExecOut {
             },
             Op::Finish => match w.as_mut().unwrap().finish() {
                 Ok(sink) => {
+                    end_pos = Some(sink.pos);
                     drop(sink);
                     finished = true;
                     Res::Ok(0)
@@ -338,6 +343,7 @@ pub fn run_program(ops: &[Op], env: &ExecEnv) -> ExecOut {
         if let Some(wr) = w.as_mut() {
             final_res = Some(match wr.finish() {
                 Ok(s) => {
+                    end_pos = Some(s.pos);
                     drop(s);
                     Res::Ok(0)
                 }
@@ -346,7 +352,7 @@ pub fn run_program(ops: &[Op], env: &ExecEnv) -> ExecOut {
         }
     }
     drop(w); // Drop is always part of the program
-    ExecOut { steps, final_res }
+    ExecOut { steps, final_res, end_pos }
 }
 
 /// read an entire ZipFile with the given caller buffer sizes (cycled); returns bytes and the first error
